@@ -397,6 +397,50 @@ def call_builtin(ex, name, node, st):
         return vfloat(mathlib.POW(x, y), or_(na, nb))
     if name in ("np.real", "np.imag") and isinstance(args[0].kind, KComplex):
         return vfloat(args[0].terms[0 if name.endswith("real") else 1])
+    if name == "np.array" and len(args) == 1 and isinstance(args[0].kind, KList):
+        return args[0]      # a one-dimensional array of the same elements (only indexed / passed on afterwards)
+    if name == "np.argsort" and len(args) == 1 and isinstance(args[0].kind, KList):
+        # trusted model of numpy.argsort: a permutation of the indices (bijection, its inverse is published as the ghost
+        # list `argsort_inverse`) along which the keys do not decrease.  Keys: numbers, or timestamps ordered by
+        # ObsTime.__lt__, which C03 proves to be the numeric order of abstime on well-formed timestamps.
+        l = args[0]
+        n = list_len(l)
+        ek = l.kind.elem
+        i, j = z3.Int(uid("as")), z3.Int(uid("as"))
+        if isinstance(ek, KRef) and ek.cls == "ObsTime" and "abstime" in ex.ctx.reg.specfuncs:
+            saved = ex.spec_mode
+            ex.spec_mode = True
+            try:
+                wf = ex.ctx.reg.specfuncs["wf"]
+                chk("argsort-of-ill-formed-timestamps", z3.ForAll([i], implies(and_(i >= 0, i < n), truth(wf(ex, st, list_get(l, i))))))
+                key = lambda e: to_float(ex.ctx.reg.specfuncs["abstime"](ex, st, e))[1]
+            finally:
+                ex.spec_mode = saved
+        elif isinstance(ek, (KFloat, KReal)):
+            chk("argsort-over-NaN", z3.ForAll([i], implies(and_(i >= 0, i < n), not_(to_float(list_get(l, i))[0]))))
+            key = lambda e: to_float(e)[1]
+        elif isinstance(ek, KInt):
+            key = lambda e: to_int(e)
+        else:
+            raise OutOfSubset("np.argsort over %r" % (ek,))
+        L = fresh(KList(INT), "argsort")
+        INV = fresh(KList(INT), "argsort_inverse")
+        ex.ctx.trusted_used.add("numpy.argsort")
+        hy = ex.ctx.hyps
+        hy.append(and_(L.terms[0] == n, INV.terms[0] == n))
+        li, ij = z3.Select(L.terms[1], i), z3.Select(INV.terms[1], j)
+        hy.append(z3.ForAll([i], implies(and_(i >= 0, i < n), and_(li >= 0, li < n, z3.Select(INV.terms[1], li) == i))))
+        hy.append(z3.ForAll([j], implies(and_(j >= 0, j < n), and_(ij >= 0, ij < n, z3.Select(L.terms[1], ij) == j))))
+        saved = ex.spec_mode
+        ex.spec_mode = True
+        try:
+            ki = key(list_get(l, li))
+            kj = key(list_get(l, z3.Select(L.terms[1], j)))
+        finally:
+            ex.spec_mode = saved
+        hy.append(z3.ForAll([i, j], implies(and_(i >= 0, i < j, j < n), ki <= kj)))
+        st.vars["argsort_inverse"] = INV
+        return L
     if name == "np.argmin" and isinstance(args[0].kind, KList) and isinstance(args[0].kind.elem, (KFloat, KReal)):
         # trusted model of numpy.argmin on a list of non-NaN floats: the first index of a minimum
         l = args[0]
